@@ -55,4 +55,40 @@ TEXT = {
   "note": "exhaustive over draws only for populations <= 3 (4); larger cases not covered",
   "technique": "TLA+ model checking (TLC) + exhaustive scripted-randomness enumeration of the real selection steps validated trace by trace",
  },
+ "C01": {
+  "level": "TLC explores the create_node derivation machine (GESynthesis) for every grammar of a TLC-enumerated family x grow / full / PI-grow x depth limits and checks WellTypedWhenDone as an invariant; every program the real library creates, maps, mutates or crosses over with all five representations (fixed + generated grammars) is projected structurally and TLC evaluates WellTyped against the declared class hierarchy, rejects foreign / lazy values and non-library exceptions.",
+  "ref": "DESIGN.md section 4 C01",
+  "note": "typing oracle = declared classes; user-defined metahandlers other than the shipped / test-suite ones not modelled",
+  "technique": "TLA+ model checking (TLC) of the derivation machine + trace validation of every produced program with the WellTyped predicate evaluated by TLC",
+ },
+ "C02": {
+  "level": "the derivation machine's invariant includes RefOK for every generated value; every program produced by the real code is checked by TLC against the documented predicate of each shipped metahandler at every refined position (top level, in lists, tuples, unions, dependent on actual sibling values), and validate() is called on generated values and must accept them.",
+  "ref": "DESIGN.md section 4 C02",
+  "note": "stack representation: open finding (refinements never consulted)",
+  "technique": "TLA+ model checking (TLC) + trace validation with RefOK evaluated by TLC",
+ },
+ "C03": {
+  "level": "TLC checks DepthOK, NoStuck and RejectedOnlyBelowMin on the derivation machine for all derivations of the family grammars at limits min-1..min+1 with three deciders; real deciders / representations are exercised at every limit from reported minimum - 1 upwards (creation, mutation and crossover chains) and TLC judges: no error at feasible limits, depth (recomputed from the structure) within the limit, infeasible limits rejected by a library error before any random draw.",
+  "ref": "DESIGN.md section 4 C03",
+  "note": "threshold = minimum reported by the implementation",
+  "technique": "TLA+ model checking (TLC) of the derivation machine + trace validation of depth-limited creation at every limit",
+ },
+ "C04": {
+  "level": "TLC proves on the model that exact-minimum-depth filtering gives Derive(grow) = Lang, Derive(full|pigrow) inside Lang for 250 grammars x limits (the as-coded list deviation must break GrowExact); the real create_genotype is driven through ALL sequences of random decisions (thousands of programs) and TLC compares the resulting SETS with Lang / FullLang computed from the declared grammar alone.",
+  "ref": "DESIGN.md section 4 C04",
+  "note": "finite-choice grammars, capped decision trees; default depth mode",
+  "technique": "TLA+ model checking (TLC) + exhaustive scripted-randomness enumeration with set comparison inside TLC",
+ },
+ "C10": {
+  "level": "the grammar is a variable of the derivation machine and TLC checks the action property [][G' = G]; after real workloads that fail and backtrack the Grammar object is re-projected (productions in order, distances, recursive set, symbols, weights) and TLC compares it with the projection taken before; the creatable set is enumerated exhaustively before and after such a workload on the same object and compared by TLC.",
+  "ref": "DESIGN.md section 4 C10",
+  "note": "workloads sampled; creatable set compared on finite-choice grammars and the dependent-context grammar",
+  "technique": "TLA+ action property (TLC) + trace validation of grammar projections + exhaustive creatable-set comparison",
+ },
+ "C11": {
+  "level": "GEMeta defines node count, distance, weighted size and type index independently on the term structure; every node and list of every program produced by the real code (all deciders, tree / GE / SGE / dSGE, after mutation and crossover) carries its recorded labels in the projection and TLC compares them with the structural definitions at every node.",
+  "ref": "DESIGN.md section 4 C11",
+  "note": "default depth-counting mode; stack representation excluded (attaches no labels); tuples opaque",
+  "technique": "TLA+ structural definitions evaluated by TLC on projected programs (trace validation) + derivation-machine model",
+ },
 }
